@@ -111,6 +111,13 @@ impl Scenario for C18 {
             tasks[0] = t0;
             tasks[1] = t1;
         }
+        if !behaviours && r.chance(1, 200) {
+            // two monitors of one target whose references lie exactly 2^k references apart
+            let k = *r.pick(&[16u32, 18, 18, 20]);
+            let owner = 1 % tasks.len();
+            tasks[owner].insert(0, Op { kind: "monitor_far".into(), a: 0, b: k * 8 + 1 });
+            tasks[owner].push(Op { kind: "kill".into(), a: 1, b: 0 });
+        }
         let p = Plan {
             kind: if behaviours { "behaviours" } else { "procs" }.to_string(),
             n_procs,
@@ -146,12 +153,12 @@ impl Scenario for C18 {
 
     fn info(&self) -> Info {
         Info {
-            rule: "one run = a started real Node with 2..6 recorder processes and 1..3 names, 2..4 driver tasks each issuing a seeded history of send / send_to_name / register / unregister / whereis / link / unlink / monitor / demonitor / kill (handler failure) / burst (above mailbox capacity) / nap (a handler busy for 6..20 s, with a burst behind it, while a process it watches fails) / send, monitor and link with an identifier that has the numbers of a live process but another creation, serial or node name; recorder handlers stall on tape decisions; yield points in the mailbox loop, exit propagation and registry removal are active for a random subset of sites; every invocation and return and every handler event is stamped with one global sequence number. A fifth of the runs drive GenServerProcess / GenEventManager instead. All runs are non-trivial; distinct = distinct (yield/handler sequence, event log).",
+            rule: "one run = a started real Node with 2..6 recorder processes and 1..3 names, 2..4 driver tasks each issuing a seeded history of send / send_to_name / register / unregister / whereis / link / unlink / monitor / demonitor / kill (handler failure) / burst (above mailbox capacity) / nap (a handler busy for 6..20 s, with a burst behind it, while a process it watches fails) / send, monitor and link with an identifier that has the numbers of a live process but another creation, serial or node name; recorder handlers stall on tape decisions; yield points in the mailbox loop, exit propagation and registry removal are active for a random subset of sites; every invocation and return and every handler event is stamped with one global sequence number. A fifth of the runs drive GenServerProcess / GenEventManager instead (calls, casts, infos, events, handler calls, handlers removing themselves, client processes failing while calls in their name are on their way). All runs are non-trivial; distinct = distinct (yield/handler sequence, event log).",
             components_real: &["edp_node::Node (spawn, register, unregister, whereis, registered, send, send_to_name, link, unlink, monitor, demonitor, process_count)", "edp_node::process (spawn_process, propagate_exit_signals, ProcessHandle)", "edp_node::registry", "edp_node::mailbox", "edp_node::gen_server::GenServerProcess", "edp_node::gen_event::GenEventManager", "tokio mpsc/RwLock (paused clock)"],
             components_stubbed: &["EPMD (stub; Node::start must register first)", "Process handlers (instrumented recorders; the behaviour callbacks are instrumented too)"],
             assumptions: &["link/unlink operations on one pair and monitor/demonitor operations on one (watcher, target) pair are issued by a single driver task, so their order is known; everything else is concurrent", "a process's death is an interval from the failing handler event to the drop of the process object; operations overlapping it may or may not take effect"],
             fault_prefixes: &["fault.", "proc."],
-            expected_probes: &["probe.c18.delivered", "probe.c18.exit_notified", "probe.c18.monitor_notified", "probe.c18.no_notice_after_unlink", "probe.c18.dead_pid_rejected", "probe.c18.name_of_dead_process_free", "probe.c18.name_history_linearizable", "probe.c18.send_name_delivered", "probe.c18.backpressure_burst", "probe.c18.gen_call_replied", "probe.c18.gen_event_notified", "probe.c18.spawned_mid_history", "probe.c18.stale_identifier_used", "probe.c18.notice_after_long_full_mailbox"],
+            expected_probes: &["probe.c18.delivered", "probe.c18.exit_notified", "probe.c18.monitor_notified", "probe.c18.no_notice_after_unlink", "probe.c18.dead_pid_rejected", "probe.c18.name_of_dead_process_free", "probe.c18.name_history_linearizable", "probe.c18.send_name_delivered", "probe.c18.backpressure_burst", "probe.c18.gen_call_replied", "probe.c18.gen_event_notified", "probe.c18.spawned_mid_history", "probe.c18.stale_identifier_used", "probe.c18.notice_after_long_full_mailbox", "probe.c18.monitors_2_pow_k_references_apart", "probe.c18.call_in_the_name_of_a_failed_client"],
         }
     }
 }
@@ -258,6 +265,11 @@ struct OpRec {
     ret: u64,
     res: Res,
     body: Option<Val>,
+}
+
+/// Operation index for the two halves of a monitor_far (kept apart from the plan's own indexes).
+fn k_index_base(_k: u32, round: usize, n_ops: usize) -> usize {
+    n_ops + 100 + round
 }
 
 fn body_for(task: usize, k: usize, n: usize, target: &str) -> Val {
@@ -487,6 +499,34 @@ async fn procs(w: &Arc<World>, p: &Plan) {
                             Ok(()) => Res::Ok,
                             Err(e) => Res::Err(e.to_string()),
                         };
+                    }
+                    "monitor_far" => {
+                        // process 0 monitors process 1 twice; 2^k - 1 other references are made in between
+                        let (a, b, k) = (0usize, 1usize, (op.b / 8).clamp(8, 20));
+                        if snapshot[a].is_none() || snapshot[b].is_none() || (a * 8 + b) % n_tasks != ti {
+                            continue;
+                        }
+                        for round in 0..2 {
+                            let mut rec = OpRec { task: ti, k: k_index_base(k, round, ops.len()), kind: "monitor".into(), a, b, inv: next_seq(&hist), ret: 0, res: Res::Ok, body: None };
+                            let r = node.monitor(&pids[a], &pids[b]).await;
+                            rec.ret = next_seq(&hist);
+                            rec.res = match r {
+                                Ok(rf) => {
+                                    let v = ref_val(&rf);
+                                    refs.lock().unwrap().entry((a, b)).or_default().push(rf);
+                                    Res::Ref(v)
+                                }
+                                Err(e) => Res::Err(e.to_string()),
+                            };
+                            ops_log.lock().unwrap().push(rec);
+                            if round == 0 {
+                                for _ in 0..(1u32 << k) - 1 {
+                                    let _ = node.make_reference();
+                                }
+                                w.stat("probe.c18.monitors_2_pow_k_references_apart");
+                            }
+                        }
+                        continue;
                     }
                     "monitor" => {
                         // a watches b
@@ -878,6 +918,19 @@ fn check_notifications(w: &Arc<World>, p: &Plan, ops: &[OpRec], events: &[RecEve
                         }
                     }
                 }
+            }
+        }
+    }
+    // every monitor has a reference of its own
+    {
+        let mut seen: Vec<&Val> = Vec::new();
+        for o in ops.iter().filter(|o| o.kind == "monitor") {
+            if let Res::Ref(r) = &o.res {
+                if seen.contains(&r) {
+                    w.violation("monitor-reference-reused", format!("monitor of process {} by process {} returned reference {:?}, which an earlier monitor still carries", o.b, o.a, r));
+                    break;
+                }
+                seen.push(r);
             }
         }
     }
